@@ -43,31 +43,37 @@ Definition headers_of (ev : event) : list header :=
   match ev with Deliver hs _ _ => hs | Lock _ _ _ => [] end.
 Definition all_headers (evs : list event) : list header := flat_map headers_of evs.
 
-(* the headers form a forest not containing the anchor: a rank (e.g. the block height) decreases towards
-   the parent; a hash determines its header; weights are positive *)
-Definition wf_headers (anchor : hash) (D : list header) : Prop :=
+(* the headers form a forest: a rank (e.g. the block height) decreases towards the parent; a hash determines its
+   header; weights are positive.  The anchor may or may not be the hash of one of the headers (a BlockChain can be
+   anchored at a checkpoint block whose header, and whose ancestors' headers, peers still send). *)
+Definition wf_headers (D : list header) : Prop :=
   (exists rk : hash -> nat, forall x, In x D -> (rk (hp x) < rk (hh x))%nat) /\
   (forall x y, In x D -> In y D -> hh x = hh y -> x = y) /\
-  (forall x, In x D -> (0 < hw x)%Z /\ hh x <> anchor).
+  (forall x, In x D -> (0 < hw x)%Z).
+(* the headers handed to preload_locked_blocks form a chain from the anchor *)
+Fixpoint chain_headers (a : hash) (pre : list header) : Prop :=
+  match pre with [] => True | x :: r => hp x = a /\ chain_headers (hh x) r end.
 
 (* the anchor below the unlocked part of a reported chain *)
 Definition snapshot_anchor (anchor : hash) (s : snapshot) : hash :=
   match s_locked s with O => anchor | S k => nth k (s_chain s) 0 end.
 
-Definition good_snapshot (anchor : hash) (D : list header) (allops : list op) (s : snapshot) : Prop :=
+(* [base]: the preloaded part of the chain (no op was ever returned for it) *)
+Definition good_snapshot (anchor : hash) (base : list hash) (D : list header) (allops : list op) (s : snapshot) : Prop :=
   is_chain D anchor (s_chain s) /\
   heaviest D (snapshot_anchor anchor s) (skipn (s_locked s) (s_chain s)) /\
   maps_agree (s_chain s) (s_h2i s) /\
-  apply_ops allops [] = Some (s_chain s).
+  apply_ops allops base = Some (s_chain s).
 
 Definition ops_of (s : snapshot) : list op := match s_ops s with Some o => o | None => [] end.
 
-Fixpoint good_trace (anchor : hash) (D : list header) (allops : list op) (evs : list event) (tr : list snapshot) : Prop :=
+Fixpoint good_trace (anchor : hash) (base : list hash) (D : list header) (allops : list op) (evs : list event)
+  (tr : list snapshot) : Prop :=
   match evs, tr with
   | ev :: evs', s :: tr' =>
     let D' := D ++ headers_of ev in
     let ops' := allops ++ ops_of s in
-    good_snapshot anchor D' ops' s /\ good_trace anchor D' ops' evs' tr'
+    good_snapshot anchor base D' ops' s /\ good_trace anchor base D' ops' evs' tr'
   | _, _ => True
   end.
 
